@@ -367,6 +367,22 @@ func init() {
 				texts = append(texts, raw)
 				q += raw + " || "
 			}
+			// the same text on two or three goroutines at once (readers only): nothing may be shared between statements,
+			// not even between identical ones
+			if len(stmts) >= 1 && r.Intn(3) == 0 {
+				for tries := 0; tries < 4; tries++ {
+					j := r.Intn(len(stmts))
+					if stmts[j].Kind != "select" {
+						continue
+					}
+					for c := 1 + r.Intn(2); c > 0; c-- {
+						stmts = append(stmts, stmts[j])
+						texts = append(texts, texts[j])
+						q += texts[j] + " || "
+					}
+					break
+				}
+			}
 			if len(stmts) < 2 {
 				continue
 			}
